@@ -44,7 +44,8 @@ PROPS["C17"] = {
             "(linked, ziplist, quicklist), sets (plain, intset 16/32/64), hashes (plain, zipmap, ziplist), sorted sets (text, binary, "
             "ziplist scores), Lua scripts, skipped aux/resizedb records, select-db, expiries in s/ms incl. > 2^63, binary non-UTF-8 keys and "
             "values, scores incl. -0/denormals/max, (D19) ±Inf/NaN, stream keys; each run with parallel in 1..8, some files with "
-            "150-2600 keys under every parallel 1..8; scaled: hashes straddling a 64-byte chunk limit; thorough: one 20 MiB hash. "
+            "150-2600 keys under every parallel 1..8; files with 5 000..140 000-element collections and list/hash/zset ziplists forced to "
+            "32 767..70 001 elements (16-bit entry count saturated); scaled: hashes straddling a 64-byte chunk limit; thorough: one 20 MiB hash. "
             "b64/b64d: Go's base64 encoder/decoder against the proved codec on random and mutated strings. "
             "non-trivial = file with at least one key/script, or non-empty base64 input; distinct by case text",
     "nontrivial": _nontrivial,
